@@ -670,8 +670,11 @@ func (r *replayer) round(steps []action, from int) (int, bool) {
 		r.w.mu.Unlock()
 		if fin >= n*(r.nr+1) {
 			if ck.off > 0 {
-				r.res.Break("behaviour %d round %d: all probes over at +%v, expected the round to last %v", r.bi, r.nr, ck.off, total)
-				return to, false
+				// the real round was shorter than the model's: there is no instant "inside" it left to look at; the
+				// choice after the round is still compared (that is where the property speaks)
+				r.res.DriftNote(vio.Finding{Key: "groups/round-shorter-than-model", Behaviour: r.bi, Step: si,
+					Text: fmt.Sprintf("round %d: all probes over at +%v, the model's round lasts %v", r.nr, ck.off, total)})
+				continue
 			}
 			// a round without duration (every member failed or answered at once): there is no instant inside it
 			continue
